@@ -10,7 +10,7 @@ S1 == Diagrams(N, E, A, I, NL, EL)
 P == <<"C10", "C05">>
 Init == stage = 0 /\ kind = "none" /\ r = <<>>
 Start == stage = 0 /\ kind' \in {"lax1", "strict1", "lax2", "sing"} /\ r' = r /\ stage' = 1
-Dom == CASE kind = "lax1" -> L1 [] kind = "strict1" -> S1 [] kind = "lax2" -> L2 [] kind = "sing" -> SeqsUpTo(NL, 2) [] OTHER -> {}
+Dom == CASE kind = "lax1" -> L1 [] kind = "strict1" -> S1 [] kind = "lax2" -> L2 [] kind = "sing" -> SeqsUpTo(NL, 3) [] OTHER -> {}
 Depth == CASE kind = "lax1" -> 1 [] kind = "strict1" -> 1 [] kind = "lax2" -> 2 [] kind = "sing" -> 2 [] OTHER -> 99
 Emits(rr) ==
   CASE kind = "lax1" ->
@@ -24,7 +24,11 @@ Emits(rr) ==
          /\ EmitCase("lax.tensor_assign", P, [pre |-> rr[1], g |-> rr[2]]) /\ EmitCase("lax.append", P, [pre |-> rr[1], g |-> rr[2]])
          /\ EmitCase("lax.h.coproduct_assign", P, [pre |-> rr[1], g |-> rr[2]])
          /\ (rr[1] = rr[2] => EmitCase("lax.compose_shr", P, [f |-> rr[1], g |-> rr[2]]))
-    [] kind = "sing" -> \A x \in EL : EmitCase("lax.singleton", P, [x |-> x, a |-> rr[1], b |-> rr[2]]) /\ EmitCase("strict.singleton", P, [x |-> x, a |-> rr[1], b |-> rr[2]])
+    [] kind = "sing" -> /\ \A x \in EL : EmitCase("lax.singleton", P, [x |-> x, a |-> rr[1], b |-> rr[2]]) /\ EmitCase("strict.singleton", P, [x |-> x, a |-> rr[1], b |-> rr[2]])
+                        \* identity, symmetry and spiders of the lax representation strictify to the strict ones
+                        /\ EmitCase("lax.twist", P, [a |-> rr[1], b |-> rr[2]]) /\ EmitCase("strict.twist", P, [a |-> rr[1], b |-> rr[2]])
+                        /\ (rr[2] = <<>> => EmitCase("lax.identity", P, [w |-> rr[1]]) /\ EmitCase("strict.identity", P, [w |-> rr[1]]))
+                        /\ \A s \in FinFunsTo(2, Len(rr[1])) : EmitCase("lax.spider", P, [s |-> s, t |-> FIdentity(Len(rr[1])), w |-> rr[1]])
 Load == /\ stage >= 1 /\ stage <= Depth /\ kind' = kind
         /\ \E d \in Dom : r' = Append(r, d) /\ stage' = stage + 1 /\ (stage = Depth => Emits(r'))
 Next == Start \/ Load
